@@ -183,7 +183,7 @@ def _only_consts(o):
     """drop flags and other compiler-introduced booleans: constants, phis of constants, uninit"""
     from .origin import walk
     for x in walk(o):
-        if isinstance(x, tuple) and x and x[0] in ("arg", "call", "upvar", "field", "variant", "try", "some", "index", "cast", "discr", "clone", "unwrap", "cycle", "named"):
+        if isinstance(x, tuple) and x and x[0] in ("arg", "call", "upvar", "field", "variant", "try", "some", "index", "cast", "discr", "clone", "unwrap", "cycle", "named", "role"):
             return False
     return True
 
